@@ -8,7 +8,7 @@ import z3
 
 from .core import (Sym, OutsideSubset, EngineError, Infeasible, PyRaise, ExcVal, py_raise, binop, unop, compare,
                    wrap, to_z3, And, Or, Not, Eq, If)
-from .values import (Obj, Extern, GuardedList, SymSet, SymMap, MapBox, SymArr, ModelValue, Uninterp, FlexDict, unflex)
+from .values import (Obj, Extern, GuardedList, SymSet, SymMap, MapBox, SymArr, ModelValue, Uninterp, FlexDict, unflex, IdSet)
 from . import strings
 
 LOG_CALL = re.compile(r'(^|\.)(log|logger|flowirLogger|graphLogger|moduleLogger|rootLogger|dsl_log|logging)'
@@ -175,6 +175,8 @@ class Interp:
             if k == 'ref':
                 return True
             raise OutsideSubset("truth of symbolic %s" % k)
+        if isinstance(v, IdSet):
+            return len(v.items) > 0
         if isinstance(v, GuardedList):
             return Or(*[Sym(g) if isinstance(g, z3.ExprRef) else g for g, _ in v.items]) if v.items else False
         if isinstance(v, SymArr):
@@ -600,6 +602,8 @@ class Interp:
             if self.set_iter == 'permute':
                 return c.permute(list(v))
             raise OutsideSubset("iteration over a set (order is arbitrary): needs the UNORDERED rule")
+        if isinstance(v, IdSet):
+            return list(v.items)
         if isinstance(v, GuardedList):
             out = []
             for g, x in v.items:
